@@ -71,6 +71,13 @@ theorem written_groups_closed (s : State) (ops : List Op) (h : DocInv s) (hb : B
     ∀ g ∈ (writeFile (run s ops)).groups, ∀ m ∈ g.2, m ∈ written (writeFile (run s ops)) :=
   Doc.groups_closed _ (Doc.full_inv_reachable s ops h hb hok).2 (Doc.link_inv_reachable s ops h hl hok)
 
+/-- (round 3) `$HANDSEED` of the file written after ANY history (save+reload steps included) is above ALL handles ever
+    issued by the history - entities, sub-entities, block records, GROUP objects, deleted ones included - not only above
+    the handles that are written -/
+theorem handseed_above_all_issued (s : State) (ops : List Op) :
+    ∀ h ∈ issuedAll s ops, h < (writeFile (run s ops)).handseed :=
+  Doc.issuedAll_lt_next ops s
+
 /-! ### version gates and required entries (Session 3; tables regenerated from the live registry on every run) -/
 
 open EzdxfVerif.DocVersion in
